@@ -264,6 +264,53 @@ func (bs *blockState) applyContractX(spec *FuncSpec, key string, args []Val, ins
 			post.Vars[spec.Results[0].Name] = res
 		}
 	}
+	if spec.Invokes != "" {
+		// the callee may invoke the closure argument any number of times: the closure's `preserves`
+		// invariants hold before, everything the closure may modify is forgotten, the invariants hold after
+		var carg Val
+		found := false
+		for i, p := range spec.Params {
+			if p.Name == spec.Invokes {
+				carg, found = args[i], true
+			}
+		}
+		mc, ok := e.closureOf[carg.C[0]]
+		if !found || !ok {
+			unsupp("call of %s: the function argument is not a closure defined here", key)
+		}
+		cfn := mc.Fn.(*ssa.Function)
+		cs := e.W.Specs.Funcs[funcKey(cfn)]
+		if cs == nil {
+			unsupp("closure %s has no contract", funcKey(cfn))
+		}
+		bind := func(st *State) map[string]Val {
+			m := map[string]Val{}
+			for i, fv := range cfn.FreeVars {
+				lv := bs.lval(mc.Bindings[i])
+				m[fv.Name()] = e.loadLv(st, lv)
+			}
+			return m
+		}
+		pc := &Ctx{E: e, Vars: bind(bs.st), St: bs.st, where: e.key + " " + site + " invokes (before)"}
+		for i, r := range cs.Preserves {
+			bs.assertG(site+".invokes."+clauseName(r, i), "pre", pc.boolT(r.Expr), r.Src, ins)
+		}
+		bs.havocModifies(cs, map[string]Val{}, ins)
+		for i, fv := range cfn.FreeVars {
+			if closureWrites(cfn, fv) {
+				lv := bs.lval(mc.Bindings[i])
+				hv := e.freshVal("cap."+fv.Name(), lv.typ)
+				bs.assumeG(e.typeFacts(hv))
+				bs.assumeG(e.inputBound(hv))
+				bs.assumeG(e.allocatedFacts(bs.st, hv))
+				bs.storeTo(lv, hv, ins)
+			}
+		}
+		ac := &Ctx{E: e, Vars: bind(bs.st), St: bs.st, where: e.key + " " + site + " invokes (after)"}
+		for _, r := range cs.Preserves {
+			bs.assumeG(ac.boolT(r.Expr))
+		}
+	}
 	if spec.Applies != "" {
 		// higher-order dependency (DESIGN 3.5): the closure argument runs exactly once, here
 		var carg Val
